@@ -119,11 +119,18 @@ Definition http_status_of (c : code) : N :=
 Definition wsgi_status_of (rs : results) : N := http_status_of (smtp_reply_of rs).
 
 (* ------------------------------------------------------------ Queue.enqueue *)
+(* the families of exceptions a write (or anything else) can end with, as far as
+   the code tells them apart *)
+Inductive exkind : Type :=
+| ExException                    (* an Exception subclass other than QueueError: OSError, a backend client error ... *)
+| ExTimeout                      (* gevent.Timeout: derives from BaseException only *)
+| ExBase.                        (* any other BaseException-only class: GreenletExit of a killed write, ... *)
+
 (* what one call of store.write does *)
 Inductive wout : Type :=
 | WId                            (* returns an id *)
 | WQErr (att : option reply)     (* raises QueueError *)
-| WExc.                          (* raises anything else *)
+| WExc (x : exkind).             (* ends with any other exception *)
 
 Inductive wbeh : Type :=
 | Done (delay : N) (o : wout)    (* yields `delay` times (slow write), then `o` *)
@@ -145,7 +152,7 @@ Definition trace := list event.
 
 Inductive enq : Type :=
 | Returned (rs : results)
-| Raised
+| Raised (x : exkind)
 | Blocked.                       (* still inside enqueue() *)
 
 Definition finish_event (k : N) (o : wout) : event :=
@@ -170,18 +177,20 @@ Fixpoint writes (k : N) (bs : list wbeh) : trace * option (list (N * wout)) :=
      not an exception           -> spawn an attempt (if there is a relay)
      QueueError                 -> stays in the list
      other exception            -> raise  (later ids get no attempt)
-   Returns (envelopes an attempt was spawned for, results or None = raised). *)
-Fixpoint spawn_loop (relay : bool) (outs : list (N * wout)) : list N * option results :=
+   The test is `isinstance(id, BaseException)`: an exception of ANY family that
+   is not a QueueError is re-raised, none is taken for an id.
+   Returns (envelopes an attempt was spawned for, results or the exception raised). *)
+Fixpoint spawn_loop (relay : bool) (outs : list (N * wout)) : list N * (results + exkind) :=
   match outs with
-  | [] => ([], Some [])
+  | [] => ([], inl [])
   | (k, WId) :: outs' =>
       let '(att, r) := spawn_loop relay outs' in
       (if relay then k :: att else att,
-       match r with Some rs => Some ((k, Id k) :: rs) | None => None end)
+       match r with inl rs => inl ((k, Id k) :: rs) | inr x => inr x end)
   | (k, WQErr a) :: outs' =>
       let '(att, r) := spawn_loop relay outs' in
-      (att, match r with Some rs => Some ((k, QErr a) :: rs) | None => None end)
-  | (k, WExc) :: _ => ([], None)
+      (att, match r with inl rs => inl ((k, QErr a) :: rs) | inr x => inr x end)
+  | (k, WExc x) :: _ => ([], inr x)
   end.
 
 Record enq_run := mkRun { q_trace : trace; q_attempts : list N; q_res : enq }.
@@ -192,8 +201,8 @@ Definition queue_enqueue (relay : bool) (bs : list wbeh) : enq_run :=
   | (tr, None) => mkRun tr [] Blocked
   | (tr, Some outs) =>
       match spawn_loop relay outs with
-      | (att, Some rs) => mkRun tr att (Returned rs)
-      | (att, None) => mkRun (tr ++ [EvRaise]) att Raised
+      | (att, inl rs) => mkRun tr att (Returned rs)
+      | (att, inr x) => mkRun (tr ++ [EvRaise]) att (Raised x)
       end
   end.
 
@@ -236,16 +245,20 @@ Definition proxy_enqueue (rr : relay_result) : enq_run :=
   | RelMap l => mkRun [EvRelayStart; EvRelayDone] [] (Returned (proxy_results_of (map snd l)))
   | RelSeq l => mkRun [EvRelayStart; EvRelayDone] [] (Returned (proxy_results_of l))
   | RelRaise r => mkRun [EvRelayStart; EvRelayFail] [] (Returned [(0, RelayErr r)])
-  | RelRaiseOther => mkRun [EvRelayStart; EvRelayFail; EvRaise] [] Raised
+  | RelRaiseOther => mkRun [EvRelayStart; EvRelayFail; EvRaise] [] (Raised ExException)
   | RelHang => mkRun [EvRelayStart; EvTick] [] Blocked
   end.
 
 (* -------------------------------------------------------------- the edges *)
 Inductive answer (A : Type) : Type :=
 | Replied (a : A)
-| NoReply.
+| NoReply                        (* still waiting *)
+| Dropped.                       (* the exception left the edge: the SMTP session ends and the socket is
+                                    closed without a reply / the WSGI application raises (the WSGI server
+                                    then answers 500 by itself).  Never an acknowledgement. *)
 Arguments Replied {A} a.
 Arguments NoReply {A}.
+Arguments Dropped {A}.
 
 (* SMTP: HAVE_DATA handler, then Server._get_message_data sends the reply; an
    exception escaping the handler makes Server.handle send `unhandled_error`
@@ -253,7 +266,10 @@ Arguments NoReply {A}.
 Definition smtp_edge (r : enq_run) : trace * answer code :=
   match q_res r with
   | Returned rs => let c := smtp_reply_of rs in (q_trace r ++ [EvSmtpReply c], Replied c)
-  | Raised => (q_trace r ++ [EvSmtpReply code_421], Replied code_421)
+  (* Server.handle: `except Exception` -> unhandled_error (421); `except Timeout` (the
+     command-timeout arm) -> timed_out (421) then ConnectionLost; anything else is not caught *)
+  | Raised ExException | Raised ExTimeout => (q_trace r ++ [EvSmtpReply code_421], Replied code_421)
+  | Raised ExBase => (q_trace r, Dropped)
   | Blocked => (q_trace r, NoReply)
   end.
 
@@ -262,7 +278,9 @@ Definition smtp_edge (r : enq_run) : trace * answer code :=
 Definition wsgi_edge (r : enq_run) : trace * answer N :=
   match q_res r with
   | Returned rs => let s := wsgi_status_of rs in (q_trace r ++ [EvHttpStatus s], Replied s)
-  | Raised => (q_trace r ++ [EvHttpStatus 500], Replied 500)
+  (* WsgiEdge.__call__ catches WsgiResponse and Exception only *)
+  | Raised ExException => (q_trace r ++ [EvHttpStatus 500], Replied 500)
+  | Raised _ => (q_trace r, Dropped)
   | Blocked => (q_trace r, NoReply)
   end.
 
@@ -454,3 +472,9 @@ Fixpoint handoffs (w : view) (obs : list (scmd * list sout)) : list (list N * li
       flat_map (fun x => match x with OHandoff l => [(snd w, l)] | OReply _ => [] end) o
       ++ handoffs (view_step w c (replies_of o)) obs'
   end.
+
+(* "not acknowledged": an error answer, or no answer at all because the exception left the edge *)
+Definition refused {A : Type} (err : A -> Prop) (a : answer A) : Prop :=
+  match a with Replied x => err x | Dropped => True | NoReply => False end.
+Definition base_only (b : wbeh) : bool :=
+  match b with Done _ (WExc ExTimeout) | Done _ (WExc ExBase) => true | _ => false end.
